@@ -474,6 +474,131 @@ def spaces_engine(tier, seed):
     return res
 
 
+# --------------------------------------------------------------------------------- python engine
+
+def py_engine(tier, seed):
+    """C19 / C20: the Python extension is built from /repo's working tree; TLC-independent scenario
+    lists (variant x planner x worlds; fault kind x schedule) are run through the Python API and -
+    for C19 - through the Rust core with bit-identical callbacks; the hashed callback streams are
+    compared call by call by the TLC stream monitor."""
+    build_harness()
+    pyt = os.path.join(BUILD, 'pytarget')
+    p = run(['cargo', 'build', '-p', 'oxmpl-py', '--offline', '--release', '--target-dir', pyt], cwd=REPO, timeout=1800,
+            env={'CARGO_NET_OFFLINE': 'true'})
+    if p.returncode != 0:
+        raise ToolError('oxmpl-py build failed:\n' + p.stdout[-2000:])
+    pydir = os.path.join(BUILD, 'py')
+    os.makedirs(pydir, exist_ok=True)
+    shutil.copy(os.path.join(pyt, 'release', 'liboxmpl_py.so'), os.path.join(pydir, 'oxmpl_py.so'))
+    work = os.path.join(BUILD, 'work', f'py-{tier}')
+    shutil.rmtree(work, ignore_errors=True)
+    os.makedirs(work)
+    scf = os.path.join(work, 'scenarios.json')
+    drv = os.path.join(ROOT, 'py', 'pydrive.py')
+    p = run([sys.executable, drv, 'scenarios', '--seed', str(seed), '--tier', tier, '--out', scf])
+    if p.returncode != 0:
+        raise ToolError('pydrive scenarios failed: ' + p.stdout[-800:])
+    pyout = os.path.join(work, 'py_runs.ndjson')
+    p = run([sys.executable, drv, 'run', '--scenarios', scf, '--out', pyout], env={'PYTHONPATH': pydir}, timeout=7200)
+    if p.returncode != 0:
+        raise ToolError('pydrive run failed: ' + p.stdout[-1500:])
+    rsout = os.path.join(work, 'rust_runs.ndjson')
+    p = run([os.path.join(HARNESS_BIN, 'pymirror'), '--scenarios', scf, '--out', rsout], stdout=subprocess.DEVNULL, timeout=7200)
+    if p.returncode != 0:
+        raise ToolError('pymirror failed: ' + (p.stderr or '')[-1500:])
+    sc = json.load(open(scf))
+    scen = {s['id']: s for s in sc['mirror'] + sc['faults']}
+    py = [json.loads(l) for l in open(pyout)]
+    rs = [json.loads(l) for l in open(rsout)]
+    rsby = {r['id']: r for r in rs if 'id' in r}
+    events = []
+    runmap = {}
+    run_no = 0
+
+    def reset(desc):
+        nonlocal run_no
+        run_no += 1
+        runmap[run_no] = desc
+        events.append({'ev': 'reset', 'run': run_no, 'planner': desc.get('planner', 'py'), 'mode': 'python', 'space': desc.get('variant', '-'),
+                       'lvs': 1, 'maxd': 0, 'rad': 0, 'tol': 0, 'bias': 'p', 'seeded': True, 'desc': desc})
+
+    def kind_of(res):
+        return res[0] if res[0] == 'ok' else 'err:' + str(res[1])
+
+    def stream_pair(tag, a, b):
+        # a = reference (inst 1), b = candidate (inst 2). A run ended by the wall-clock timeout is
+        # compared on the common prefix only (how many iterations fit is not a decision).
+        ha, hb = list(a['h']), list(b['h'])
+        ra, rb = kind_of(a['result']), kind_of(b['result'])
+        timeout = any('within timeout' in x for x in (ra, rb))
+        if timeout:
+            n = min(len(ha), len(hb))
+            ha, hb = ha[:n], hb[:n]
+            ra = rb = 'timeout-prefix'
+        ids = {}
+        def rid(x):
+            return ids.setdefault(x, len(ids) + 1)
+        resa = rid(('r', ra, a['result'][1] if a['result'][0] == 'ok' else 0))
+        resb = rid(('r', rb, b['result'][1] if b['result'][0] == 'ok' else 0))
+        if timeout:
+            resb = resa
+        events.append({'ev': 'stream', 'inst': 1, 'call': 1, 'draws': ha, 'res': resa, 'pan': False, 'tag': tag})
+        events.append({'ev': 'stream', 'inst': 2, 'call': 1, 'draws': hb, 'res': resb, 'pan': False, 'tag': tag})
+
+    nmirror = nfault = 0
+    faults = {}
+    for r in py:
+        if r['mode'] == 'mirror':
+            d = {'kind': 'mirror', **{k: scen[r['id']][k] for k in ('id', 'variant', 'planner', 'seed', 'maxd', 'radius', 'bias')}}
+            if r['planner'] == 'prm':
+                reset(d)
+                if 'prm' in r:
+                    events.append({'ev': 'pyprm', **r['prm']})
+                continue
+            reset(d)
+            stream_pair('C19', rsby[r['id']], r)
+            nmirror += 1
+        elif r['mode'] == 'fault':
+            faults.setdefault(r['id'], {})[r['twin']] = r
+        elif r['mode'] == 'wrappers':
+            rw = [x for x in rs if x.get('mode') == 'wrappers'][0]['values']
+            reset({'kind': 'wrappers'})
+            for a, b in zip(r['values'], rw):
+                events.append({'ev': 'pywrap', 'kind': a[0], 'same': a == b})
+            if len(r['values']) != len(rw):
+                events.append({'ev': 'pywrap', 'kind': 'count', 'same': False})
+    for fid, pair in faults.items():
+        if True not in pair or False not in pair:
+            continue
+        d = {'kind': 'fault', **{k: scen[fid][k] for k in ('id', 'variant', 'planner', 'seed', 'fault')}}
+        reset(d)
+        stream_pair('C20', pair[True], pair[False])
+        events.append({'ev': 'pyfault', 'hit': bool(pair[False]['path_hits_fault']),
+                       'twin_same_kind': True})
+        nfault += 1
+    trace = os.path.join(work, 'py.trace')
+    with open(trace, 'w') as f:
+        for e in events:
+            f.write(json.dumps(e) + '\n')
+    viols, nev = tlc_monitor([trace], timeout=3600)
+    res = {'engine': 'py', 'planner': '*', 'configs': [], 'violations': [], 'samples': [], 'states': nev + 1, 'transitions': nev,
+           'traces': nmirror + nfault, 'events': nev, 'witnesses': [], 'label_counts': {}, 'programs': nmirror + nfault + 1,
+           'disagreements_checked': sum(len(e.get('draws', [])) for e in events if e['ev'] == 'stream' and e['inst'] == 2)}
+    for v in viols:
+        d = runmap.get(v['run'], {})
+        for lab in v['labels']:
+            res['label_counts'][lab] = res['label_counts'].get(lab, 0) + 1
+            if sum(1 for x in res['violations'] if x['label'] == lab) < 6:
+                res['violations'].append({'label': lab, 'planner': d.get('planner'), 'engine': 'py', 'cfg': str(d.get('variant')), 'run': v['run'],
+                                          'line': v['line'], 'mode': 'python', 'space': d.get('variant'),
+                                          'input': {'python': True, 'seed': seed, 'tier': tier, 'scenario': d}})
+    res['configs'].append({'name': 'python-api', 'mirror_runs': nmirror, 'fault_pairs': nfault, 'wrapper_values': len([e for e in events if e['ev'] == 'pywrap']),
+                           'prm_soundness_runs': len([e for e in events if e['ev'] == 'pyprm']), 'events': nev,
+                           'distinct_final_snapshots': nmirror + nfault, 'states': nev + 1, 'transitions': nev})
+    res['samples'] = [runmap[k] for k in sorted(runmap)[:3]]
+    return res
+
+
 # ------------------------------------------------------------------------------------ properties
 
 TREE = ['lat:rrt', 'lat:rrtstar', 'lat:rrtc']
@@ -497,6 +622,8 @@ PROPS = {
     'C13': {'prefixes': ['C13/'], 'engines': ['spaces'], 'level': 'model_checking'},
     'C14': {'prefixes': ['C14/'], 'engines': ['spaces'], 'level': 'other'},
     'C15': {'prefixes': ['C15/'], 'engines': TREE + REAL, 'level': 'model_checking'},
+    'C19': {'prefixes': ['C19/'], 'engines': ['py'], 'level': 'translation_validation'},
+    'C20': {'prefixes': ['C20/'], 'engines': ['py'], 'level': 'fault_enumeration'},
     'C16': {'prefixes': ['C16/'], 'engines': TREE + REAL, 'level': 'model_checking'},
     'C17': {'prefixes': ['C17/'], 'engines': ['lat:rrtstar'] + REAL, 'level': 'model_checking'},
     'C18': {'prefixes': ['C18/'], 'engines': ['lat:prm'] + REAL, 'level': 'model_checking'},
@@ -524,6 +651,8 @@ def run_engine(name, tier, seed):
         r = real_engine(tier, seed)
     elif kind == 'spaces':
         r = spaces_engine(tier, seed)
+    elif kind == 'py':
+        r = py_engine(tier, seed)
     else:
         raise ToolError('unknown engine ' + name)
     r['wall_s'] = round(time.time() - t0, 1)
@@ -630,6 +759,8 @@ def write_evidence(pid, tier, seed, spec, results, counts, nviol, wall, known_hi
         'engines': [{'engine': r['engine'], 'configs': r.get('configs', []), 'witnesses': r.get('witnesses', []),
                      'wall_s': r.get('wall_s'), 'cached_result_for_same_tree': r.get('engine_cached', False)} for r in results],
         'labels_of_this_property_raised': counts,
+        'programs': sum(r.get('programs', 0) for r in results),
+        'disagreements_checked': sum(r.get('disagreements_checked', 0) for r in results),
         'explanation': 'see rule; for C14 this is sampler refinement (word -> cell bijection, ball accept/reject decisions, word consumption, '
                        'cone rejection) against the specification of the sampler in Spaces.tla, NOT a goodness-of-fit test',
         'known_findings_matched': [json.loads(k) for k in known_hit],
